@@ -1,7 +1,6 @@
 package nfs40
 
 import (
-	"bytes"
 	"context"
 	"encoding/binary"
 	"fmt"
@@ -308,7 +307,7 @@ func statusName(st nfsv4.Nfsstat4) string {
 	return strings.TrimPrefix(n, "NFS4ERR_")
 }
 
-func clientLongID(cl int) []byte   { return []byte(fmt.Sprintf("client-%d", cl)) }
+func clientLongID(cl int) []byte    { return []byte(fmt.Sprintf("client-%d", cl)) }
 func clientVerifier(cv int) [8]byte { return [8]byte{0xc1, 0, 0, 0, 0, 0, 0, byte(cv)} }
 
 // ---------------------------------------------------------------------------
@@ -837,5 +836,3 @@ func panicKind(msg string) string {
 	}
 	return "state"
 }
-
-var _ = bytes.Equal
